@@ -1834,12 +1834,27 @@ func ruleC10Links(c *Checker) {
 			return ok && isFunc(calleeObj(cl), "path/filepath", "IsAbs") && canon(cl.Call.Args[0]) == target
 		})
 		var nddE, npE []Edge
+		joinShapeBad := ""
 		isJoined := func(v ssa.Value) bool {
 			cl := callOf(canon(v))
 			if cl == nil || !isFunc(calleeObj(cl), "path/filepath", "Join") {
 				return false
 			}
-			return p.backSlice(cl, 0)[target]
+			if !p.backSlice(cl, 0)[target] {
+				return false
+			}
+			// Join(directory of the entry, target), in that order
+			ja := joinArgs(cl)
+			if len(ja) >= 2 {
+				first := callOf(canon(ja[0]))
+				if first == nil || !isFunc(calleeObj(first), "path/filepath", "Dir") {
+					joinShapeBad = "the target is not joined onto the DIRECTORY of the entry (filepath.Dir of its path from the root)"
+				}
+				if canon(ja[len(ja)-1]) != canon(target) {
+					joinShapeBad = "the link's target is not the last element joined"
+				}
+			}
+			return true
 		}
 		nddE, npE = dotDotEdges(fn, isJoined)
 		n := 0
@@ -1871,6 +1886,7 @@ func ruleC10Links(c *Checker) {
 			c.check(ok, R, name, fmt.Sprintf("exit %d: link target spelling judged", i), p.Pos(r.Pos()), "for a link, reached only past IsAbs-false and the \"..\" tests of its target from the root", "a link can be kept on where it resolves during the walk alone ("+why+"): spelled through the directory's temporary name it dangles, pointing out of its package, once the directory is renamed")
 		}
 		c.check(n > 0, R, name, "exits reachable for links", p.Pos(fn.Pos()), fmt.Sprintf("%d", n), "no non-error exit of the walk can be reached for a symlink entry (links are no longer kept at all)")
+		c.check(joinShapeBad == "", R, name, "where the target leads from the root", p.Pos(fn.Pos()), "filepath.Join(filepath.Dir(entry from the root), target)", "the path judged for climbing out of the package is not 'directory of the entry, then the target' ("+joinShapeBad+"): one \"..\" is absorbed by the entry's own name, or every \"..\" counts from the wrong place — a link that leaves the package passes, or sub/link -> ../file is refused")
 	}
 }
 
